@@ -87,7 +87,16 @@ class SpringSystemSolver(SystemSolver):
           decorator       progress decorator
         """
         network = self.make_network(model, smat, ssolver)
-        subproblems = network.reduce_graph()
+        # Pieces left without any tube (e.g. the manifold springs when every
+        # panel is disconnected) have no support and carry no load
+        subproblems = [
+            sb
+            for sb in network.reduce_graph()
+            if any(
+                isinstance(data["object"], spring.TubeSpring)
+                for _, _, data in sb.edges(data=True)
+            )
+        ]
 
         # Simple heuristic for deciding who gets threads
         nprobs = len(subproblems)
